@@ -19,12 +19,12 @@ def chunks(lst, k):
     return [lst[i:i + size] for i in range(0, len(lst), size)] if lst else []
 
 
-def enum_tasks(n, nchunks, signs, nconf, seed, presentation="random"):
+def enum_tasks(n, nchunks, signs, nconf, seed, presentation="random", frac=1.0):
     """All groups of n qubits.  signs: "all" or an int (number of random sign vectors);
     nconf: "all" or an int (number of random configurations per case)."""
     seeds = groups.group_tasks(n)
     random.Random(seed).shuffle(seeds)
-    return [("enum", n, ch, signs, nconf, seed * 1000 + i, presentation)
+    return [("enum", n, ch, signs, nconf, seed * 1000 + i, presentation if frac >= 1.0 else (presentation, frac))
             for i, ch in enumerate(chunks(seeds, nchunks))]
 
 
@@ -54,11 +54,16 @@ def iter_cases(task):
     kind = task[0]
     if kind == "enum":
         _, n, seeds, signs, nconf, seed, presentation = task
+        frac = 1.0
+        if isinstance(presentation, tuple):
+            presentation, frac = presentation
         rnd = random.Random(seed)
         confs = oconn.configs_for(n)
         k = 0
         for sd in seeds:
             for rows in groups.groups_from_task(sd, n):
+                if frac < 1.0 and rnd.random() >= frac:
+                    continue
                 base = [groups.split(v, n) for v in rows]
                 label = lcorbit.orbit_label(base, n)
                 if signs == "all":
